@@ -28,6 +28,7 @@ META = {
         "legacy fat* macOS formats are stripped from both sides (not claimed)",
         "linux_<arch> on musllinux is neither required nor forbidden (statement silent; packaging and the code emit it)",
         "arm64 on macOS 10.x is not a real platform and is excluded",
+        "T5 (known finding): the position of linux_<arch> in manylinux lists (packaging 26.x: first; dep-logic and a pinned test: last) is excluded and counted",
     ],
     "exhaustive": True,
 }
@@ -118,6 +119,20 @@ def evaluate(kind, case, acc):
         acc.nontriv(text)
     fam_label = c[0] if c[0] != "name" else "alias"
     acc.label(fam_label)
+    plain = [t for t in exp if t.startswith("linux_")]
+    if as_list and plain and fam_label in ("manylinux", "alias"):
+        # T5 (known finding): packaging 26.x ranks linux_<arch> first, dep-logic (and a pinned repository test) last.
+        # Everything else about the list is compared exactly; the position of that one tag is the finding.
+        pos_ok = got[:1] == plain
+        got_wo, exp_wo = [t for t in got if t not in plain], [t for t in exp if t not in plain]
+        if not pos_ok:
+            if harness.KNOWN_ENABLED and got[-1:] == plain:
+                acc.excluded_known["T5-linux-arch-position"] += 1
+            else:
+                acc.fail(kind, f"{fam_label}:position-of-linux_arch", case, expected={"first": plain}, got={"index": got.index(plain[0]) if plain[0] in got else None, "n": len(got)})
+        if set(plain) - set(got):
+            acc.fail(kind, f"{fam_label}:set", case, expected=plain, got="missing")
+        got, exp = got_wo, exp_wo
     if as_list:
         if got != exp:
             i = next((k for k, (a, b) in enumerate(zip(got, exp)) if a != b), min(len(got), len(exp)))
